@@ -45,6 +45,63 @@ def tabs():
 
 
 # ------------------------------------------------------------------------------------------------ call tables
+def _returning(q, *terms):
+    """RETURNING exists on the PostgreSQL builder only (elsewhere the attribute lookup would be answered with a Field)."""
+    if callable(getattr(type(q), "returning", None)):
+        return q.returning(*terms)
+    return q
+
+
+def variants(kind):
+    """call name -> alternative argument forms of the same call (index 1.. ; index 0 is the canonical form of the call table)."""
+    r = R()
+    t, u = tabs()
+    Sum, Count = r["fn.Sum"], r["fn.Count"]
+    if kind == "select":
+        return {
+            "select": [lambda q, Q: q.select(t.a, Sum(t.b).as_("total")), lambda q, Q: q.select("a", "b"), lambda q, Q: q.select(t.star),
+                       lambda q, Q: q.select(t.a.as_("b"), t.b.as_("a"))],
+            "orderby": [lambda q, Q: q.orderby("total"), lambda q, Q: q.orderby("b"), lambda q, Q: q.orderby(Sum(t.b).as_("total")),
+                        lambda q, Q: q.orderby(t.a, order=r["Order"].desc)],
+            "groupby": [lambda q, Q: q.groupby("a"), lambda q, Q: q.groupby("total"), lambda q, Q: q.groupby(t.a.as_("total")), lambda q, Q: q.groupby(1)],
+            "where": [lambda q, Q: q.where(u.a > 1), lambda q, Q: q.where(t.id.isin(Q.from_(u).select(u.id)))],
+            "join": [lambda q, Q: q.join(u).using("id"), lambda q, Q: q.left_join(u).on(t.id == u.id),
+                     lambda q, Q: q.join(Q.from_(u).select(u.id).as_("s")).on_field("id")],
+            "having": [lambda q, Q: q.having(Sum(t.b) > 3)],
+            "limit": [lambda q, Q: q.limit(0)],
+            "offset": [lambda q, Q: q.offset(0)],
+            "with": [lambda q, Q: q.with_(Q.from_(u).select(u.a), "c2")],
+            "for_update": [lambda q, Q: q.for_update(of=("t",)), lambda q, Q: q.for_update(nowait=True)],
+            "force_index": [lambda q, Q: q.use_index("ix2")],
+        }
+    if kind == "update":
+        return {
+            "set": [lambda q, Q: q.set("a", 1), lambda q, Q: q.set(t.a, u.b)],
+            "where": [lambda q, Q: q.where(t.id == u.id)],
+            "returning": [lambda q, Q: _returning(q, t.a), lambda q, Q: _returning(q, "*"), lambda q, Q: _returning(q, t.a, "b")],
+        }
+    if kind == "delete":
+        return {
+            "where": [lambda q, Q: q.where(t.id == u.id)],
+            "returning": [lambda q, Q: _returning(q, t.a), lambda q, Q: _returning(q, "*")],
+        }
+    if kind == "insert":
+        return {
+            "columns": [lambda q, Q: q.columns(t.id, t.a)],
+            "insert": [lambda q, Q: q.insert((1, 2), (3, 4))],
+            "on_conflict": [lambda q, Q: q.on_conflict(t.id), lambda q, Q: q.on_conflict()],
+            "do_update": [lambda q, Q: q.do_update("a")],
+            "returning": [lambda q, Q: _returning(q, t.a), lambda q, Q: _returning(q, "*"), lambda q, Q: _returning(q, "id", "a")],
+        }
+    if kind == "create":
+        return {
+            "columns": [lambda q, Q: q.columns(r["Column"]("id", "INT"), r["Column"]("a", "INT"))],
+            "unique": [lambda q, Q: q.unique("a")],
+            "primary_key": [lambda q, Q: q.primary_key("id", "a")],
+        }
+    return {}
+
+
 def select_calls():
     r = R()
     t, u = tabs()
@@ -81,6 +138,7 @@ def update_calls():
         "from": lambda q, Q: q.from_(v),
         "join": lambda q, Q: q.join(u).on(t.id == u.id),
         "with": lambda q, Q: q.with_(Q.from_(u).select(u.id), "c1"),
+        "returning": lambda q, Q: _returning(q, "id"),
     }
 
 
@@ -91,6 +149,7 @@ def delete_calls():
         "orderby": lambda q, Q: q.orderby(t.id),
         "limit": lambda q, Q: q.limit(2),
         "with": lambda q, Q: q.with_(Q.from_(u).select(u.id), "c1"),
+        "returning": lambda q, Q: _returning(q, "id"),
     }
 
 
@@ -104,6 +163,7 @@ def insert_calls():
         "on_conflict": lambda q, Q: q.on_conflict("id"),
         "do_update": lambda q, Q: q.do_update("a", 9),
         "do_nothing": lambda q, Q: q.do_nothing(),
+        "returning": lambda q, Q: _returning(q, "id"),
     }
 
 
@@ -176,10 +236,26 @@ def cases(tier, seed, shard, nshards):
                     yield {"k": "perm", "kind": kind, "d": d, "calls": list(c)}
             if tier == "thorough":
                 for _ in range(40):
+                    if len(names) < 6:
+                        break
                     size = rnd.randint(6, min(9, len(names)))
-                    if size > len(names):
-                        continue
                     yield {"k": "perm", "kind": kind, "d": d, "calls": rnd.sample(names, size), "sample": rnd.getrandbits(30)}
+    # argument-form variants: random call groups of 2..5 calls, each call in a randomly chosen argument form, all orders
+    for kind, (_, mk) in KINDS.items():
+        names = list(mk())
+        alt = variants(kind)
+        if not alt:
+            continue
+        per = {"select": 2400, "insert": 900, "update": 600, "delete": 300, "create": 300}[kind] * (1 if tier == "quick" else 12)
+        for d in DIALECT_CLASSES:
+            for _ in range(per // nshards // 6 + 1):
+                size = rnd.randint(2, min(5, len(names)))
+                calls = rnd.sample(names, size)
+                calls.sort(key=names.index)
+                var = {c: rnd.randint(0, len(alt[c])) for c in calls if c in alt}
+                if not any(var.values()):
+                    continue
+                yield {"k": "perm", "kind": kind, "d": d, "calls": calls, "var": var}
     # accumulation in call order
     for d in DIALECT_CLASSES:
         k += 1
@@ -192,11 +268,16 @@ def hash_stable(t):
     return zlib.crc32(",".join(t).encode())
 
 
-def apply(kind, d, calls):
+def apply(kind, d, calls, var=None):
     r = R()
     Q = r[d]
     base, mk = KINDS[kind]
     table = mk()
+    if var:
+        alt = variants(kind)
+        for name, i in var.items():
+            if i:
+                table[name] = alt[name][i - 1]
     q = base(Q)
     for c in calls:
         q = table[c](q, Q)
@@ -233,6 +314,8 @@ def clause_keywords(toks):
                     pass
                 if w == "INTO" and out and out[-1] in ("INSERT", "REPLACE"):
                     continue
+                if w == "USING" and out and out[-1] == "JOIN":
+                    continue  # JOIN x USING (..) is part of the join
                 if w == "SET" and prev in ("UPDATE", "DO") and out and out[-1] == "DO-UPDATE":
                     continue
                 out.append(w)
@@ -417,6 +500,7 @@ def groups_ok(order, canonical):
 
 def run_perm(case, mon):
     kind, d, calls = case["kind"], case["d"], case["calls"]
+    var = case.get("var")
     fam = DIALECT_OF[d] if d != "Query" else "generic"
     if len(calls) <= 5:
         orders = list(itertools.permutations(calls))
@@ -428,7 +512,7 @@ def run_perm(case, mon):
         if not groups_ok(order, calls):
             continue
         try:
-            sql = render(apply(kind, d, list(order)), d)
+            sql = render(apply(kind, d, list(order), var), d)
         except Exception:
             mon.count("orders_rejected_by_library")
             continue
@@ -437,23 +521,34 @@ def run_perm(case, mon):
     if len(outs) > 1:
         (s1, o1), (s2, o2) = list(outs.items())[:2]
         # name the pair of calls whose swap matters: find two orders differing by an adjacent transposition
-        key = "%s:order-dependent:%s:%s" % (kind, blame(kind, d, calls), fam)
-        mon.violation(key, "orders %s and %s of the same calls render differently: %r vs %r" % (list(o1[0]), list(o2[0]), s1[:200], s2[:200]),
-                      {"calls": calls})
+        key = "%s:order-dependent:%s:%s" % (kind, blame(kind, d, calls, var), fam)
+        mon.violation(key, "orders %s and %s of the same calls%s render differently: %r vs %r" % (
+            list(o1[0]), list(o2[0]), " (argument forms %s)" % var if var else "", s1[:200], s2[:200]), {"calls": calls, "var": var})
         return
     if outs:
-        mon.nontrivial(["perm", kind, d, sorted(calls)])
+        mon.nontrivial(["perm", kind, d, sorted(calls), sorted((var or {}).items())])
         mon.count("permutation_groups_agreeing")
+        if var:
+            mon.count("variant_groups_agreeing")
+            sql = next(iter(outs))
+            if not complete(kind, calls):
+                mon.count("incomplete_builders")
+                if sql != "":
+                    mon.violation("%s:incomplete-renders-fragment:%s" % (kind, fam), "incomplete builder (calls %s, argument forms %s) rendered %r instead of ''" % (
+                        calls, var, sql[:200]))
+                return
+            if sql != "":
+                wellformed(kind, d, calls, sql, mon)
 
 
-def blame(kind, d, calls):
+def blame(kind, d, calls, var=None):
     """Smallest pair of calls whose two orders differ."""
     for a, b in itertools.combinations(calls, 2):
         if not groups_ok((b, a), (a, b)):
             continue
         try:
-            s1 = render(apply(kind, d, [a, b]), d)
-            s2 = render(apply(kind, d, [b, a]), d)
+            s1 = render(apply(kind, d, [a, b], var), d)
+            s2 = render(apply(kind, d, [b, a], var), d)
         except Exception:
             continue
         if s1 != s2:
